@@ -6,15 +6,17 @@ Two input classes.
 (B) synthetic Hamiltonians lambda*q1*p1 + i*om1*q2*p2 + i*om2*q3*p3 + generated complex terms of degree 3..N fed to
     center._lie._lie_transform / normal._lie._lie_transform / _lie_expansion directly.
 
-Oracles (all on decoded coefficients; evaluation, differentiation, brackets and flows are this module's own code on
-`polyref` dictionaries / NumPy arrays, only the coordinate series is evaluated by the library's `_evaluate_transform`):
+Oracles (all on coefficients decoded with polyref's table reader; evaluation (long double), differentiation
+(polyref.diff), brackets (polyref.poisson) and flows (SciPy) are this module's own code; the library's
+`_evaluate_transform` is tied to the decoded series by a separate comparison):
  1. term structure: every coefficient of degree 3..N of the partial normal form with k0 != k3 (full: with a divisor
     (k3-k0)lam + i(k4-k1)om1 + i(k5-k2)om2 of modulus >= the documented resonance tolerance 1e-14) is zero up to the
-    rounding of H_n + {H_2, G_n}: 32 eps S_k |g_k| + 2 |{H_2 - H_2(modes), G_n}|_k + cleaning tolerance.
+    rounding of H_n + {H_2, G_n}: 64 eps S_k |g_k| + 2 |{H_2 - H_2(modes), G_n}|_k + cleaning tolerance.
  2. conjugacy: H_new(z) - H_old(Phi(z)) = O(r^(N+1)) on a radius ladder, Phi = forward series (the one documented as
     "from normalized to original coordinates"), and again with Phi = phi_G3 o ... o phi_GN, the time-one Hamiltonian flows
-    of the returned generating functions integrated with SciPy (convention H' = exp(L_G) H = H + {H,G} + ..., lie.py).
- 3. canonicity: DPhi^T J DPhi - J = O(r^N) (exact polynomial Jacobian).
+    of the returned generating functions integrated with SciPy (convention H' = exp(L_G) H = H + {H,G} + ..., lie.py);
+    also |series - flows| = O(r^(N+1)).
+ 3. canonicity: DPhi^T J DPhi - J = O(r^N) (exact polynomial Jacobian), forward and inverse series.
  4. inverse: Phi^-1(Phi(z)) - z and Phi(Phi^-1(z)) - z = O(r^(N+1)).
 Slope rule as in C02: only the finest usable rungs above the rounding floor count; fewer than 2 slopes => not evaluated.
 """
@@ -23,7 +25,6 @@ from __future__ import annotations
 import hashlib
 import logging
 import math
-import types
 
 import numpy as np
 from hypothesis import strategies as st
@@ -42,10 +43,11 @@ RULE = ("cases = (A) generated (mu from {Earth-Moon, Sun-Earth, Sun-Jupiter} + l
         "complex monomials of degree 3..N) through the partial / full Lie routines, each with generated complex evaluation directions "
         "(all six components non-zero); non-trivial = N >= 4 AND >= 10 eliminated monomials (non-zero generating-function coefficients) "
         "AND the conjugacy slope was measurable (>= 2 slopes above the rounding floor) for the series and for the integrated flows; "
-        "distinct by (mu to 6 digits, point, N) resp. the full synthetic input")
+        "distinct by (mu to 6 digits, point, N) resp. the full synthetic input; in class A the pipeline accessor is used at tol=1e-30 and, when "
+        "its default-tolerance (1e-16) series differs at all, that one is checked too (conjugacy, inverse) with the cleaning allowance")
 ASSUMPTIONS = [
     "a monomial is 'resonant' for the full normal form iff |(k3-k0)lam + i(k4-k1)om1 + i(k5-k2)om2| < 1e-14, the documented resonance_tol default of normal/_lie.py and wrappers.py; divisors within 64 eps S_k of that threshold are not judged",
-    "'no monomial' is read up to the rounding of the single operation that removes it: |coef_k| <= 32 eps S_k |g_k| + 2|{H2 - H2(linear_modes), G_n}|_k + tol_lie max(1,|divisor|), S_k = sum_m |eta_m|(k_m + k_{m+3}); this is >= 1e10 times smaller than an uneliminated coefficient |g_k * divisor_k| unless S_k/|divisor_k| > 1e4",
+    "'no monomial' is read up to the rounding of the single operation that removes it: |coef_k| <= 64 eps S_k |g_k| + 2|{H2 - H2(linear_modes), G_n}|_k + tol_lie max(1,|divisor|), S_k = sum_m |eta_m|(k_m + k_{m+3}); this is >= 1e10 times smaller than an uneliminated coefficient |g_k * divisor_k| unless S_k/|divisor_k| > 1e4",
     "slopes: error (own long-double evaluation of the decoded polynomials) summed over the generated directions on rungs r0*2^(-j/2); a rung is usable when the error is >= 30x the floor = 64 eps_longdouble * majorants + eps_double * (largest coefficient of each degree) on every monomial (rounding of the library's coefficient arithmetic) + cleaning tolerance of the series + 1e-12 * displacement for the integrated flows (rtol 1e-13 on the displacement, verified on a closed-form flow); slopes are taken over two rungs (factor 2 in r); the observed order = max(two finest slopes, Richardson extrapolation 2 s(r/2) - s(r) of the finest one) must be >= order - 0.5 (when the finest measurable slope still starts where the non-linear part of the map exceeds 25% of the linear part, only < order - 1 fails and [order-1, order-0.5) is inconclusive); fewer than 2 slopes => counted trivial, never failed",
     "the ladder starts at the largest rung at which the non-linear part of the coordinate change (majorant) does not exceed the linear part, i.e. 'small z' is relative to the size of the returned series; only the finest rungs decide",
     "forward series = _lie_expansion(inverse=False) is the map new -> old coordinates (docstring: 'Forward Mode: From normalized to original coordinates')",
@@ -833,10 +835,10 @@ def selftest():
 
 def run(ctx):
     selftest()
-    nA = ctx.share(ctx.scale(10, 120))
-    nB = ctx.share(ctx.scale(240, 8000))
-    explore(ctx, "synthetic", synthetic_case(ctx.scale(5, 6)), evaluate, nB, shrink_calls=ctx.scale(60, 300))
-    explore(ctx, "pipeline", pipeline_case(ctx.scale(6, 10)), evaluate, nA, shrink_calls=ctx.scale(4, 12))
+    nA = ctx.share(ctx.scale(10, 160))
+    nB = ctx.share(ctx.scale(240, 6000))
+    explore(ctx, "synthetic", synthetic_case(ctx.scale(5, 6)), evaluate, nB, shrink_calls=ctx.scale(12, 200))
+    explore(ctx, "pipeline", pipeline_case(ctx.scale(6, 10)), evaluate, nA, shrink_calls=ctx.scale(2, 8))
 
 
 def replay(ctx, payload):
